@@ -176,6 +176,27 @@ def lean_sources_for(prop):
   return sorted(files)
 
 
+def import_closure(prop):
+  """Project-local Lean modules (e.g. 'Model.Generated.Phases') transitively imported by Properties/<prop>.lean and
+  Drivers/<prop>.lean.  Used to decide which translator errors concern this property."""
+  seen, todo = set(), [f"Properties.{prop}", f"Drivers.{prop}"]
+  while todo:
+    m = todo.pop()
+    if m in seen:
+      continue
+    path = os.path.join(LEAN_DIR, *m.split(".")) + ".lean"
+    if not os.path.exists(path):
+      if m.startswith("Model.Generated."):
+        seen.add(m)          # a generated file that could not be written is still a dependency
+      continue
+    seen.add(m)
+    for ln in strip_comments(open(path).read()).splitlines():
+      mm = re.match(r"\s*(?:public\s+)?import\s+(\S+)", ln)
+      if mm and mm.group(1).split(".")[0] in ("Model", "Proofs", "Properties", "Drivers"):
+        todo.append(mm.group(1))
+  return seen
+
+
 def theorem_names(path):
   """Fully qualified names of the theorems declared in a Properties file (namespace-aware)."""
   src = strip_comments(open(path).read())
@@ -251,7 +272,14 @@ class Ctx:
         self.gen_status = translate.generate_all(REPO)
       except Exception as e:  # translator crash = broken obligation
         self.gen_status = {"translator": f"error: {type(e).__name__}: {e}"}
-      gen_err = [k for k, v in self.gen_status.items() if str(v).startswith("error")]
+      # a translator error concerns this property only when the generated file it belongs to is in the import closure
+      # of the property's theorems or driver (Constants and a translator crash concern every property)
+      closure = import_closure(self.prop)
+      gen_files = getattr(translate, "GEN_FILE_OF", lambda k: None)
+      def concerns(k):
+        f = gen_files(k)
+        return f is None or f"Model.Generated.{f}" in closure
+      gen_err = [k for k, v in self.gen_status.items() if str(v).startswith("error") and concerns(k)]
       targets = [f"Properties.{self.prop}"]
       rc, log = run_cmd(["lake", "build"] + targets, cwd=LEAN_DIR)
       self.build_log = log
@@ -265,6 +293,29 @@ class Ctx:
       self.drv_ok = drv_ok
       pfile = os.path.join(LEAN_DIR, "Properties", f"{self.prop}.lean")
       self.obligations = theorem_names(pfile)
+      # Optional second file Properties/<prop>Gen.lean: theorems identifying the hand-written model with functions the
+      # translator regenerated from the current source (its first line names the generated file: `-- generated: Midpoint`).
+      # Translation succeeded -> these are obligations like any other (a failed proof is a broken obligation).
+      # The source left the translatable subset -> the hand-written model is still tied by the correspondence run, which
+      # is what decided the property before this file existed; the run says so under `partial` and goes on.
+      self.audit_imports = [f"Properties.{self.prop}"]
+      gfile = os.path.join(LEAN_DIR, "Properties", f"{self.prop}Gen.lean")
+      if os.path.exists(gfile):
+        mgen = re.match(r"--\s*generated:\s*(\w+)", open(gfile).readline())
+        gname = mgen.group(1) if mgen else None
+        bad = {k: v for k, v in self.gen_status.items() if str(v).startswith("error") and translate.GEN_FILE_OF(k) == gname}
+        if gname is None or bad:
+          self.extra["source_regenerated_tie"] = {"available": False, "translator": bad}
+          self.partial.append(f"source-regenerated tie ({self.prop}Gen.lean) unavailable on this tree: the source left the translator's "
+                              f"subset ({'; '.join(f'{k}: {v}' for k, v in bad.items())[:300]}); hand-written model tied by the correspondence only")
+        else:
+          rc3, log3 = run_cmd(["lake", "build", f"Properties.{self.prop}Gen"], cwd=LEAN_DIR)
+          self.extra["source_regenerated_tie"] = {"available": True, "builds": rc3 == 0}
+          if rc3 != 0:
+            props_ok = False
+            self.build_log += "\n" + log3
+          self.obligations = self.obligations + theorem_names(gfile)
+          self.audit_imports.append(f"Properties.{self.prop}Gen")
       if props_ok:
         self._audit()
       # forbidden tokens
@@ -283,7 +334,8 @@ class Ctx:
     os.makedirs(adir, exist_ok=True)
     apath = os.path.join(adir, f"{self.prop}.lean")
     with open(apath, "w") as f:
-      f.write(f"import Properties.{self.prop}\n")
+      for imp in getattr(self, "audit_imports", [f"Properties.{self.prop}"]):
+        f.write(f"import {imp}\n")
       for n in self.obligations:
         f.write(f"#print axioms {n}\n")
     rc, out = run_cmd(["lake", "env", "lean", apath], cwd=LEAN_DIR)
